@@ -3,12 +3,12 @@ CONSTANTS
   Segmented = FALSE
   Families = {"api", "cl", "chunk"}
   CodeMode = "few"
-  HdrK = 4
+  HdrK = 3
   MaxHdrs = 2
   MaxBody = 1
   BodyMode = "len"
   StyleMode = "all"
-  PhraseMode = "free"
+  PhraseMode = "reg"
   MaxBig = 9
 INIT MCInit
 NEXT Next
